@@ -2,11 +2,11 @@ package main
 
 import (
 	"fmt"
-	"math"
-	"math/big"
 	"go/ast"
 	"go/token"
 	"go/types"
+	"math"
+	"math/big"
 	"os"
 	"path/filepath"
 	"sort"
@@ -34,7 +34,7 @@ type Engine struct {
 	Ghosts    map[string]*GhostDef
 	SpecFiles []string
 	VarFuncs  map[string]*ssa.Function // "var pkg.name" -> function stored there by the package initialiser
-	VarStores map[string]int            // number of stores to the global outside the package initialiser
+	VarStores map[string]int           // number of stores to the global outside the package initialiser
 	Lemmas    []*LemmaDef
 	SmtDefs   []*SmtDef
 
@@ -45,6 +45,7 @@ type Engine struct {
 	layouts map[string][]Leaf
 
 	FloatSort string // "Real" default
+	seqAxioms bool   // emit the extensionality / access axioms of seq() (opt-in: `uses seq_ext`)
 }
 
 type Leaf struct {
@@ -406,10 +407,14 @@ func isStruct(t types.Type) bool {
 }
 
 var msetType = types.NewNamed(types.NewTypeName(token.NoPos, nil, "MSet", nil), types.Typ[types.Int], nil)
+var seqType = types.NewNamed(types.NewTypeName(token.NoPos, nil, "Seq", nil), types.Typ[types.Int], nil)
 
 func (e *Engine) layout(t types.Type) []Leaf {
 	if t == msetType {
 		return []Leaf{{"", "MSet", t, "mset"}}
+	}
+	if t == seqType {
+		return []Leaf{{"", "VSeq", t, "seq"}}
 	}
 	k := t.String()
 	if l, ok := e.layouts[k]; ok {
@@ -467,6 +472,43 @@ func (e *Engine) layout(t types.Type) []Leaf {
 	}
 	e.layouts[k] = out
 	return out
+}
+
+var leafKindCache map[string]string
+
+// leafKindOf returns the layout kind ("ref", "int", "sb", ...) of a heap / memory / map / global state variable.
+func (e *Engine) leafKindOf(name string) string {
+	if leafKindCache == nil {
+		leafKindCache = map[string]string{}
+		for _, t := range e.knownTypes() {
+			tk := typeKey(t)
+			for _, l := range e.layout(t) {
+				if isStruct(t) {
+					leafKindCache["H."+tk+l.Path] = l.Kind
+				}
+				leafKindCache["M."+tk+l.Path] = l.Kind
+				leafKindCache["H.box."+tk+l.Path] = l.Kind
+			}
+			if mt, ok := t.Underlying().(*types.Map); ok {
+				for _, l := range e.layout(mt.Elem()) {
+					vn, _ := mapValVar(mt, l)
+					leafKindCache[vn] = l.Kind
+				}
+			}
+		}
+		for _, path := range e.RepoPkgs {
+			sc := e.Pkgs[path].Types.Scope()
+			for _, n := range sc.Names() {
+				if v, ok := sc.Lookup(n).(*types.Var); ok {
+					root := "G." + e.shortName(path+"."+v.Name())
+					for _, l := range e.layout(v.Type()) {
+						leafKindCache[root+l.Path] = l.Kind
+					}
+				}
+			}
+		}
+	}
+	return leafKindCache[name]
 }
 
 func (e *Engine) strID(s string) int {
